@@ -31,12 +31,13 @@
 (*   kinds transaction kinds in the catalogue                               *)
 (*   pairs "none" | "dep" | "all": two-transaction blocks in the alphabet   *)
 (*   bury  sizes k of the macro requests Bury(k) / Unbury(k)                *)
-(*   rev   monitor applies backward changes in reverse order (FALSE at the  *)
-(*         pinned commit: disconnecting a block that holds a transaction    *)
-(*         and a spend of it aborts - hypothesis 5 / C14)                   *)
-(*   mir   backward HTLC changes mirror the forward watches (FALSE at the   *)
-(*         pinned commit; only used to decide which blocks the compact-     *)
-(*         proof runs may disconnect)                                       *)
+(*   rev   monitor applies backward changes in reverse order (was FALSE at  *)
+(*         the pinned commit: disconnecting a block that holds a closing    *)
+(*         transaction and a spend of one of its outputs aborted - C14;     *)
+(*         TRUE since /repo 9860e01).  Read from spec/monitor_switches.json *)
+(*   mir   backward HTLC changes mirror the forward watches (was FALSE;     *)
+(*         TRUE since /repo 3e8fbb8); only used to decide which blocks the  *)
+(*         compact-proof runs may disconnect                                *)
 (*   mode  "compact" | "streamed"                                           *)
 (*   empty the alphabet contains the single empty block                     *)
 (***************************************************************************)
